@@ -1,3 +1,85 @@
+import LibconfigModel.LookupSpec
 import LibconfigModel.WF
+import LibconfigModel.Step
+import LibconfigModel.Proofs.C06
+/-
+  C06 — every setting is reachable by its path, and only existing paths resolve.
+  Statements only; helper lemmas live in LibconfigModel/Proofs/C06.lean.
+-/
 namespace Libconfig.C06
+
+/-- Declarative meaning of a step sequence: each name step is the exact name of a member
+of a group, each index step an existing position of an aggregate. -/
+inductive Denotes : Node → List PStep → Path → Prop where
+  | nil (n : Node) : Denotes n [] []
+  | name (n k : Node) (nm : Bytes) (i : Nat) (rest : List PStep) (q : Path) :
+      n.ty = T_GROUP → n.kids[i]? = some k → k.name = some nm → Denotes k rest q →
+      Denotes n (.name nm :: rest) (i :: q)
+  | index (n k : Node) (i : Nat) (rest : List PStep) (q : Path) :
+      n.isAggregate = true → n.kids[i]? = some k → Denotes k rest q →
+      Denotes n (.index i :: rest) (i :: q)
+
+/-- no member has the empty name (a consequence of well-formedness) -/
+def NoEmptyNames (n : Node) : Prop :=
+  ∀ p m, n.get? p = some m → ∀ k ∈ m.kids, k.name ≠ some []
+
+theorem noEmptyNames_of_WF (n : Node) (h : n.WF) : NoEmptyNames n :=
+  C06P.noEmpty_of_WF n h
+
+/-- The path walker of the library computes exactly the declarative resolution. -/
+theorem C06_lookup_eq_resolve (n : Node) (h : NoEmptyNames n) (path : Bytes) :
+    lookupFrom n path = resolve n path :=
+  C06P.lookupFrom_eq_resolve n h path
+
+/-- `walk` only follows steps that exist. -/
+theorem C06_walk_denotes (n : Node) (steps : List PStep) (q : Path) (m : Node)
+    (h : walk n steps = some (q, m)) : Denotes n steps q ∧ n.get? q = some m :=
+  C06P.walk_denotes_gen Denotes Denotes.nil Denotes.name Denotes.index steps n q m h
+
+/-- Soundness: whatever a lookup returns is a proper descendant of the base, reached by the
+steps the path spells, each of which exists.  (So a missing member, an out-of-range index
+or a continuation below a scalar resolves to nothing.) -/
+theorem C06_sound (n : Node) (hn : NoEmptyNames n) (path : Bytes) (q : Path)
+    (h : lookupFrom n path = some q) :
+    ∃ steps trailing m, parseSteps (path.length + 1) path = some (steps, trailing) ∧ steps ≠ [] ∧
+      Denotes n steps q ∧ n.get? q = some m ∧ q ≠ [] := by
+  obtain ⟨steps, trailing, m, hp, hne, hw, hq⟩ := C06P.sound_walk n hn path q h
+  obtain ⟨hd, hg⟩ := C06_walk_denotes n steps q m hw
+  exact ⟨steps, trailing, m, hp, hne, hd, hg, hq⟩
+
+/-- Completeness: every setting below a base `n` is found by every spelling of its index
+path — names or bracketed indices, any of the three separators, with or without a leading
+separator. -/
+theorem C06_complete (n : Node) (hwf : n.WF) (ip : Path) (m : Node) (hne : ip ≠ [])
+    (hv : n.get? ip = some m) (hidx : ∀ i ∈ ip, (i : Int) ≤ INT_MAX)
+    (chs : List Choice) (hsep : ∀ c ∈ chs, isPathSep c.sep = true) (lead : Bool)
+    (txt : Bytes) (hr : renderPath n ip chs lead = some txt) :
+    lookupFrom n txt = some ip := by
+  have _ := hv  -- implied by `hr`
+  exact C06P.complete n hwf ip hne hidx chs hsep lead txt hr
+
+/-- The path reported by the C++ `getPath()` resolves back to the same setting. -/
+theorem C06_getPath (n : Node) (hwf : n.WF) (ip : Path) (m : Node) (hne : ip ≠ [])
+    (hv : n.get? ip = some m) (hidx : ∀ i ∈ ip, (i : Int) ≤ INT_MAX) :
+    ∃ txt, cppGetPath n ip = some txt ∧ lookupFrom n txt = some ip :=
+  C06P.getPath n hwf ip m hne hv hidx
+
+/-- A failing lookup leaves the caller's variable untouched: the typed lookups return
+`none` (no value) whenever the path does not resolve. -/
+theorem C06_untouched (k : Kind) (c : Config) (path : Bytes) (h : lookupFrom c.root path = none) :
+    clookupVal k c path = none := by
+  simp [clookupVal, h]
+
+/-! Non-vacuity -/
+def sample : Node :=
+  { ty := T_GROUP, kids := [
+      { name := some [97], ty := T_INT },
+      { name := some [97, 98], ty := T_LIST, kids := [{ ty := T_INT },
+          { ty := T_GROUP, kids := [{ name := some [120, 45, 121], ty := T_ARRAY, kids := [{ ty := T_INT }, { ty := T_INT }] }] }] } ] }
+
+-- "ab.[1]:x-y/[1]" resolves to /1/1/0/1, "ab.[2]" and "a.[0]" resolve to nothing
+example : lookupFrom sample [97, 98, 46, 91, 49, 93, 58, 120, 45, 121, 47, 91, 49, 93] = some [1, 1, 0, 1] := by decide
+example : lookupFrom sample [97, 98, 46, 91, 50, 93] = none := by decide
+example : lookupFrom sample [97, 46, 91, 48, 93] = none := by decide
+
 end Libconfig.C06
